@@ -3,3 +3,5 @@ import PhQVerif.Core.Expr
 import PhQVerif.Core.Model
 import PhQVerif.Core.Tables
 import PhQVerif.Core.Check
+import PhQVerif.Core.Lex
+import PhQVerif.Core.Angle
